@@ -298,7 +298,14 @@ theorem removedir_refines (v : Vol) (s : St) (path : List Nat) (h : TreeInv s.no
           · left; exact hs
           · right; rw [h1, h2, hnp, abs_eq]; simp
 
-theorem fwrite_refines (v : Vol) (s : St) (path : List Nat) (pos n : Nat) (h : TreeInv s.nodes) :
+theorem replace_self (nodes : List Node) (f : Node) : replaceNode nodes f f = nodes := by
+  unfold replaceNode
+  rw [List.map_congr_left (g := id)]
+  · simp
+  · intro x _; by_cases hx : x = f <;> simp [hx]
+
+theorem fwrite_refines (v : Vol) (s : St) (path : List Nat) (pos n : Nat) (h : TreeInv s.nodes)
+    (hdom : ∀ f ∈ s.nodes, f.path = path → pos ≤ f.size) :
     Refines s (.fwrite path pos n) (fwrite v s path pos n) := by
   unfold Refines fwrite
   simp only [specStep]
@@ -324,23 +331,32 @@ theorem fwrite_refines (v : Vol) (s : St) (path : List Nat) (pos n : Nat) (h : T
       simp only [Option.map_some] at hrf
       obtain ⟨hn, hnp⟩ := find_path hf
       obtain ⟨ploc, hpl⟩ := resolve_parent hrf
+      have hpos : pos ≤ f.size := hdom f hn hnp
       simp only [hrf, hpl, Option.map_some, toS]
       cases hnd : f.isDir with
       | true => right; simp [abs_eq]
       | false =>
         simp only [Bool.false_eq_true, ↓reduceIte]
-        cases hw : writeChain v s.fat s.hint f.chain f.size pos n with
-        | error e => left; exact soft_of (writeChain_err hw)
-        | ok r =>
-          obtain ⟨fat, hint, chain⟩ := r
-          simp only
+        by_cases hn0 : n = 0
+        · subst hn0
+          right
+          simp only [↓reduceIte, flush, abs_eq, true_and, Nat.add_zero]
+          have e1 := absN_replace h f f hn rfl
+          rw [replace_self] at e1
+          have e2 : toS f = ⟨dir ++ [k], false, max f.size pos⟩ := by
+            simp [toS, hnp, hnd, Nat.max_eq_left hpos]
+          rw [← e2]; exact e1
+        · simp only [hn0, ↓reduceIte]
           split
-          · rename_i e hu; left; exact soft_of (updateDir_err hu)
-          · rename_i s2 hu
-            right
-            simp only [flush, abs_eq, updateDir_abs hu, true_and]
-            rw [absN_replace h f _ hn (by rfl)]
-            simp [toS, hnp]
+          · rename_i e hw; left; exact soft_of (writeChain_err hw)
+          · rename_i fat hint chain hw
+            split
+            · rename_i e hu; left; exact soft_of (updateDir_err hu)
+            · rename_i s2 hu
+              right
+              simp only [flush, abs_eq, updateDir_abs hu, true_and]
+              rw [absN_replace h f _ hn (by rfl)]
+              simp [toS, hnp, Nat.min_eq_left hpos]
 
 theorem ftrunc_refines (v : Vol) (s : St) (path : List Nat) (m : Nat) (h : TreeInv s.nodes) :
     Refines s (.ftrunc path m) (ftrunc v s path m) := by
@@ -408,14 +424,20 @@ theorem ftrunc_refines (v : Vol) (s : St) (path : List Nat) (m : Nat) (h : TreeI
             rw [absN_replace h f _ hn (by rfl)]
             simp [toS, hnp]
 
+/-- the domain of the property: a write starts inside the file (beyond it pyfatfs clamps: known finding D17c) -/
+def InDomain (s : St) : Op → Prop
+  | .fwrite p pos _ => ∀ f ∈ s.nodes, f.path = p → pos ≤ f.size
+  | _ => True
+
 /-- **every call refines the reference filesystem** (or stops with out-of-space) -/
-theorem step_refines (v : Vol) (s : St) (op : Op) (h : TreeInv s.nodes) : Refines s op (step v s op) := by
+theorem step_refines (v : Vol) (s : St) (op : Op) (h : TreeInv s.nodes) (hdom : InDomain s op) :
+    Refines s op (step v s op) := by
   cases op with
   | create p sl w => exact create_refines v s p sl w h
   | makedir p sl => exact makedir_refines v s p sl h
   | remove p => exact remove_refines v s p h
   | removedir p => exact removedir_refines v s p h
-  | fwrite p pos n => exact fwrite_refines v s p pos n h
+  | fwrite p pos n => exact fwrite_refines v s p pos n h hdom
   | ftrunc p m => exact ftrunc_refines v s p m h
 
 end Proofs.FsRefine
